@@ -60,7 +60,10 @@ META = {
         "R2 (API): match_with_wildcard returns True exactly under `pattern is None`, otherwise fullmatch (or match of an "
         "expression the translator ends in \\Z - not `$`, which also matches before a final line feed) of the unmodified name against "
         "the regex built from the unmodified pattern; at every call of match_with_wildcard in the package the pattern is never "
-        "tested for truthiness / emptiness next to the match (only None means 'no filter'; '' matches exactly the empty value); the cached translator has the pattern as its only parameter, reads no mutable "
+        "tested for truthiness / emptiness next to the match (only None means 'no filter'; '' matches exactly the empty value); a "
+        "regex-free shortcut return (`name.startswith(e)`, `endswith`, `==`, `in`) is model-checked: for every abstract pattern up to "
+        "length 4 that takes it (its guards evaluated with pure str/int operations on the concretised pattern) the string test must "
+        "accept the same names as the documented translation; the cached translator has the pattern as its only parameter, reads no mutable "
         "global, and every call passes the whole pattern. "
         "R3 (the two filter functions): a role inference over the nested loops (inventory key / domain / object type / name, item "
         "fields; the Sphinx `domain:type` key cut at the same colon as from_sphinx and the native loader cut it; the item as a "
@@ -1249,11 +1252,15 @@ def r2_api(corpus: Corpus, rep: Report, tier: str):
     rets = [n for n in mw.local_nodes() if isinstance(n, ast.Return)]
     none_true = []
     full = []
+    shortcuts = []  # returns that decide the match with a plain string test of the name (regex-free fast paths)
     for r in rets:
         v = r.value
         gs = cfg.guards(r)
         if isinstance(v, ast.Constant) and v.value is True:
             none_true.append((r, gs))
+            continue
+        if _literal_name_test(v, mw, p_name) is not None:
+            shortcuts.append((r, gs))
             continue
         full.append((r, gs))
     # (a) omitted pattern matches everything
@@ -1284,6 +1291,8 @@ def r2_api(corpus: Corpus, rep: Report, tier: str):
             isn = _is_none_test(t, p_pat)
             if isinstance(t, ast.Name) and t.id == p_pat and pol:
                 continue  # complement of a falsy test: judged at the None rule above
+            if shortcuts and isn is None and not _mentions(t, [p_name]):
+                continue  # which patterns take a regex-free shortcut: judged by the shortcut clause below
             if not (isn is not None and isn != pol):
                 raise Unsupported(f"the matching return of match_with_wildcard is guarded by `{short(t, 50)}`")
         call = _match_call(r.value)
@@ -1315,6 +1324,41 @@ def r2_api(corpus: Corpus, rep: Report, tier: str):
             src = defs[0]
         if not (isinstance(src, ast.Call) and cr in g.flat_targets(g.resolve_call(src, mw))):
             raise Unsupported(f"the regex matched in match_with_wildcard comes from `{short(src, 50)}`, not from _create_regex")
+    # (b2) regex-free shortcuts: for every abstract pattern that takes one, the plain string test must accept the same
+    #      names as the documented translation (`startswith(p)` = p ANY*, `endswith(s)` = ANY* s, `==` = p, `in` = ANY* p ANY*)
+    if shortcuts:
+        k = f"{mw.fq}|a regex-free shortcut decides the same as the translated pattern"
+        classes = [STAR, BSL, OTHER]
+        rep_ch = "\x01"
+        ordered = sorted(rets, key=lambda r_: (r_.lineno, r_.col_offset))
+        witness = None
+        n_short = 0
+        for n_ in range(0, 5):
+            for seq in itertools.product(classes, repeat=n_):
+                text = "".join(rep_ch if c_ == OTHER else c_ for c_ in seq)
+                taken = None
+                for r_ in ordered:
+                    if all(bool(_pat_eval(t_, text, p_pat)) == pol_ for t_, pol_ in cfg.guards(r_)):
+                        taken = r_
+                        break
+                if taken is None or not any(taken is r0 for r0, _ in shortcuts):
+                    continue
+                n_short += 1
+                kind, arg_e = _literal_name_test(taken.value, mw, p_name)
+                lits = [("LIT", OTHER if ch == rep_ch else ch) for ch in _pat_eval(arg_e, text, p_pat)]
+                any_ = [("ANY", 0, "inf")]
+                got = {"startswith": lits + any_, "endswith": any_ + lits, "eq": lits, "in": any_ + lits + any_}[kind]
+                ssteps, send, _sf = spec_output(seq)
+                want = [f for st_ in ssteps for f in st_] + send
+                if _merge_any(got) != _merge_any(want) and witness is None:
+                    witness = (seq, got, want, taken)
+        if witness is None:
+            rep.ok("C19.R2", k, mw.module.site(shortcuts[0][0]), f"{n_short} abstract pattern(s) take a shortcut")
+        else:
+            seq, got, want, taken = witness
+            pat = "".join("c" if c_ == OTHER else c_ for c_ in seq)
+            rep.violation("C19.R2", k, mw.module.site(taken), f"pattern {pat!r} (c = any other character) takes `{short(taken.value, 50)}`, which accepts [{_show(got)}], the documented semantics require [{_show(want)}]: "
+                          "the shortcut looks at the '*' characters of the raw pattern without regard to the backslash escape")
     # (c) cache key = the full pattern
     decos = [mw.module.resolve(d) for d in cr.decorators()]
     cached = [d for d in decos if d in ("functools.lru_cache", "functools.cache")]
@@ -1381,6 +1425,71 @@ def r2_api(corpus: Corpus, rep: Report, tier: str):
         else:
             rep.ok("C19.R2", k, fi.module.site(call))
     rep.expect_min("C19.R2", 10, "None rule, fullmatch, cache signature, call site, callers of match_with_wildcard")
+
+
+def _literal_name_test(v: ast.expr, mw: FunctionInfo, p_name: str):
+    """(kind, pattern-side expression) when ``v`` decides the match with a plain string test of the name:
+    `name.startswith(e)`, `name.endswith(e)`, `name == e`, `e in name`."""
+    if isinstance(v, ast.Call) and isinstance(v.func, ast.Attribute) and v.func.attr in ("startswith", "endswith") and len(v.args) == 1 and not v.keywords and _alias_of_param(v.func.value, mw) == p_name:
+        return v.func.attr, v.args[0]
+    if isinstance(v, ast.Compare) and len(v.ops) == 1:
+        l, r = v.left, v.comparators[0]
+        if isinstance(v.ops[0], ast.Eq):
+            if _alias_of_param(l, mw) == p_name:
+                return "eq", r
+            if _alias_of_param(r, mw) == p_name:
+                return "eq", l
+        if isinstance(v.ops[0], ast.In) and _alias_of_param(r, mw) == p_name:
+            return "in", l
+    return None
+
+
+def _pat_eval(e: ast.expr, text: str, pname: str):
+    """Value of an expression over the pattern parameter (pure str / int operations only) for the concrete pattern ``text``."""
+    if isinstance(e, ast.Constant) and isinstance(e.value, (str, int, bool, type(None))):
+        return e.value
+    if isinstance(e, ast.Name) and e.id == pname:
+        return text
+    if isinstance(e, ast.UnaryOp) and isinstance(e.op, ast.Not):
+        return not _pat_eval(e.operand, text, pname)
+    if isinstance(e, ast.UnaryOp) and isinstance(e.op, ast.USub):
+        return -_pat_eval(e.operand, text, pname)
+    if isinstance(e, ast.BoolOp):
+        vals = [_pat_eval(v, text, pname) for v in e.values]
+        return all(vals) if isinstance(e.op, ast.And) else any(vals)
+    if isinstance(e, ast.BinOp) and isinstance(e.op, (ast.Add, ast.Sub)):
+        a, b = _pat_eval(e.left, text, pname), _pat_eval(e.right, text, pname)
+        return a + b if isinstance(e.op, ast.Add) else a - b
+    if isinstance(e, ast.Compare):
+        left = _pat_eval(e.left, text, pname)
+        for op, c in zip(e.ops, e.comparators):
+            right = _pat_eval(c, text, pname)
+            ok = {ast.Eq: lambda: left == right, ast.NotEq: lambda: left != right, ast.Lt: lambda: left < right, ast.LtE: lambda: left <= right, ast.Gt: lambda: left > right, ast.GtE: lambda: left >= right,
+                  ast.In: lambda: left in right, ast.NotIn: lambda: left not in right, ast.Is: lambda: left is right, ast.IsNot: lambda: left is not right}.get(type(op))
+            if ok is None:
+                raise Unsupported(f"comparison `{short(e, 40)}` on the pattern")
+            if not ok():
+                return False
+            left = right
+        return True
+    if isinstance(e, ast.Subscript):
+        base = _pat_eval(e.value, text, pname)
+        if isinstance(e.slice, ast.Slice):
+            lo = None if e.slice.lower is None else _pat_eval(e.slice.lower, text, pname)
+            hi = None if e.slice.upper is None else _pat_eval(e.slice.upper, text, pname)
+            st = None if e.slice.step is None else _pat_eval(e.slice.step, text, pname)
+            return base[lo:hi:st]
+        i = _pat_eval(e.slice, text, pname)
+        if not isinstance(base, str) or not isinstance(i, int) or not (-len(base) <= i < len(base)):
+            raise Unsupported(f"index `{short(e, 30)}` on the pattern")
+        return base[i]
+    if isinstance(e, ast.Call) and isinstance(e.func, ast.Name) and e.func.id == "len" and len(e.args) == 1 and not e.keywords:
+        return len(_pat_eval(e.args[0], text, pname))
+    if isinstance(e, ast.Call) and isinstance(e.func, ast.Attribute) and e.func.attr in ("count", "startswith", "endswith", "find", "rfind", "isalnum", "isidentifier") and not e.keywords:
+        recv = _pat_eval(e.func.value, text, pname)
+        if isinstance(recv, str):
+            return getattr(recv, e.func.attr)(*[_pat_eval(a, text, pname) for a in e.args])
+    raise Unsupported(f"expression `{short(e, 40)}` on the pattern is outside the evaluated subset (pure str / int operations)")
 
 
 def _match_call(v: ast.expr):
@@ -3826,6 +3935,14 @@ def mutants(corpus: Corpus):
     nt = find_node(mw, lambda n: isinstance(n, ast.If) and _is_none_test(n.test, mw.params[1]) is True)
     add("c19-none-test-becomes-falsy-test", "C19.R2", inv, nt.test if nt is not None else None, f"not {mw.params[1]}", "omitted pattern")
     add("c19-none-rule-dropped", "C19.R2", inv, nt, "pass", "omitted pattern")
+    # class "a regex-free shortcut that reads the '*' of the raw pattern without regard to the escape"
+    rx = find_node(mw, lambda n: isinstance(n, ast.Assign) and isinstance(n.value, ast.Call) and unparse(n.value.func) == "_create_regex")
+    if rx is not None:
+        ind_ = " " * rx.col_offset
+        seg_ = ast.get_source_segment(inv.src, rx)
+        pn, nn = mw.params[1], mw.params[0]
+        add("c19-prefix-shortcut-ignores-escaped-star", "C19.R2", inv, rx, f"if {pn}.count('*') == 1 and {pn}.endswith('*'):\n{ind_}    return {nn}.startswith({pn}[:-1])\n{ind_}{seg_}", "regex-free shortcut")
+        add("c19-infix-shortcut-ignores-escaped-star", "C19.R2", inv, rx, f"if {pn}.count('*') == 2 and {pn}.startswith('*') and {pn}.endswith('*'):\n{ind_}    return {pn}[1:-1] in {nn}\n{ind_}{seg_}", "regex-free shortcut")
     cc = find_node(mw, lambda n: isinstance(n, ast.Call) and unparse(n.func) == "_create_regex")
     add("c19-cache-key-not-full-pattern", "C19.R2", inv, cc.args[0] if cc is not None else None, f"{mw.params[1]}.strip()", "whole pattern")
     # dce2a78 (an empty -l pattern is a pattern): revert + partial weakenings
